@@ -1,6 +1,7 @@
 import ast
 import inspect
 import re
+import symtable
 from string import Template
 
 from outsourcer import CodeBuilder, Code, Val
@@ -329,10 +330,20 @@ def _python_names(node):
     names = set()
     for source in sources:
         try:
-            tree = ast.parse(source.strip(), mode='eval')
+            top = symtable.symtable(source.strip(), '<inline python>', 'eval')
         except SyntaxError:
             continue
-        names.update(x.id for x in ast.walk(tree) if isinstance(x, ast.Name))
+
+        # Only count the names that the code reads from its surroundings. The
+        # parameters of a lambda (and the variables of a comprehension) belong
+        # to the inline code itself.
+        tables = [top]
+        while tables:
+            table = tables.pop()
+            tables.extend(table.get_children())
+            for symbol in table.get_symbols():
+                if symbol.is_global() and not symbol.is_assigned():
+                    names.add(symbol.get_name())
     return names
 
 
